@@ -1,7 +1,7 @@
 """C06 — multi-objective step rule and return-to-base schedule (suppapitnarm explorer)."""
 import coqgen as g
 
-ITER_BUDGET = 1500      # iterations of full runs per generated .v shard
+ITER_BUDGET = 900       # iterations of full runs per generated .v shard
 SCHED_BUDGET = 40       # schedule-only cases per shard
 
 
@@ -53,8 +53,19 @@ def rcase(c):
         ";\n    ".join(ins), ";\n    ".join(obs), g.b(c["panicked"]))
 
 
+def rle(returns):
+    """merge consecutive returns that install the same countdown and step, one countdown apart"""
+    out = []
+    for it, cd, st in returns:
+        if out and out[-1][1] == cd and out[-1][2] == st and out[-1][0] + out[-1][3] * cd == it:
+            out[-1][3] += 1
+        else:
+            out.append([it, cd, st, 1])
+    return out
+
+
 def scase(c):
-    rets = ["(%s, %s, %s)" % (g.n_(r[0]), g.n_(r[1]), fl(r[2])) for r in c["returns"]]
+    rets = ["(%s, %s, %s, %s)" % (g.n_(r[0]), g.n_(r[1]), fl(r[2]), g.n_(r[3])) for r in rle(c["returns"])]
     return "CS (mk_scase %s %s %s [%s])" % (params(c), g.n_(c["iterations"]), g.n_(c["until0"]), "; ".join(rets))
 
 
@@ -68,7 +79,7 @@ def shards(cases):
     """group cases so that every shard stays small (full runs by iteration count, schedule runs by count)"""
     cur, cost = [], 0
     for c in cases:
-        w = (len(c["obs"]) + 5) if c["t"] == "r" else (ITER_BUDGET // SCHED_BUDGET + len(c["returns"]) // 8)
+        w = (len(c["obs"]) + 5) if c["t"] == "r" else (ITER_BUDGET // SCHED_BUDGET + len(rle(c["returns"])) // 8)
         if cur and cost + w > ITER_BUDGET:
             yield cur
             cur, cost = [], 0
@@ -87,19 +98,27 @@ def run(ctx):
             ctx.failing_inputs.append(l)
         if l.get("kind") == "stat":
             ctx.stats = l["stats"]
-    ctx.check_theorems("Properties/C06.v")
-    nshards = 0
-    for si, shard in enumerate(shards(cases)):
-        items = [rcase(c) if c["t"] == "r" else scase(c) for c in shard]
-        body = PRELUDE + "Definition cases : list case := [\n  " + ";\n  ".join(items) + "\n].\n"
-        body += "Definition M := Eval vm_compute in mismatches cases.\nPrint M.\n"
-        idx = ctx.correspondence("cases_C06_%d" % si, body, ncases=len(shard))
-        nshards += 1
+    # the theorem file and the correspondence shards are independent coqc runs: 4 at a time
+    from concurrent.futures import ThreadPoolExecutor
+    jobs = []
+    with ThreadPoolExecutor(max_workers=4) as ex:
+        jobs.append(ex.submit(ctx.check_theorems, "Properties/C06.v"))
+        shard_list = list(shards(cases))
+        for si, shard in enumerate(shard_list):
+            items = [rcase(c) if c["t"] == "r" else scase(c) for c in shard]
+            body = PRELUDE + "Definition cases : list case := [\n  " + ";\n  ".join(items) + "\n].\n"
+            body += "Definition M := Eval vm_compute in mismatches cases.\nPrint M.\n"
+            jobs.append(ex.submit(ctx.correspondence, "cases_C06_%d" % si, body, None, len(shard)))
+    results = [j.result() for j in jobs]
+    nshards = len(shard_list)
+    for shard, idx in zip(shard_list, results[1:]):
         if idx:
             for i in idx[:3]:
                 c = shard[i]
-                brief = {k: c[k] for k in ("t", "init", "min", "factor", "ck", "class", "until0") if k in c}
+                brief = {k: c[k] for k in ("t", "init", "min", "factor", "ck", "class", "until0", "n") if k in c}
                 ctx.notes.append({"mismatch": brief})
+    # obligations in a deterministic order whatever the completion order was
+    ctx.obligations.sort(key=lambda o: (not o[0].startswith("no_forbidden"), not o[0].startswith("theorem:"), o[0]))
     full = [c for c in cases if c["t"] == "r"]
     sched = [c for c in cases if c["t"] == "s"]
     iters = sum(len(c["obs"]) for c in full)
